@@ -608,7 +608,7 @@ Proof.
   destruct (mux_serve true prod_tables (loop_script head silent)) as [d s] eqn:EM.
   pose proof (mux_sound _ _ _ _ _ prod_tables_wf EM) as Hs.
   cbn [fst] in *. unfold ok_loop. destruct d; cbn in Hs; try discriminate;
-    rewrite <- Hc; cbn; rewrite ?Nat.eqb_refl; reflexivity.
+    rewrite <- Hc; cbn [decision_eqb andb Nat.eqb]; rewrite ?Nat.eqb_refl, ?Z.eqb_refl; reflexivity.
 Qed.
 
 (* with 16 bytes in the head, whatever follows (the filler) cannot change the decision *)
